@@ -11,6 +11,8 @@ import BSVerif.Driver.Cont
 import BSVerif.Driver.Valid
 import BSVerif.Driver.Adapter
 import BSVerif.Driver.Chrono
+import BSVerif.Driver.WStr
+import BSVerif.Driver.MpObj
 
 namespace BSVerif.Driver
 
@@ -18,9 +20,11 @@ def dispatch (toks : List String) (impl : Option String) : Option (String × Str
   match toks with
   | [] => none
   | t :: _ =>
-    if t == "utf.detect" || t == "utf.read" || t == "utf.write" then UtfStream.handle toks impl
+    if t == "wstr.rt" then WStr.handle toks impl
+    else if t == "utf.detect" || t == "utf.read" || t == "utf.write" then UtfStream.handle toks impl
     else if t.startsWith "utf." then Utf.handle toks impl
     else if t.startsWith "bs." then BinStream.handle toks impl
+    else if t == "mp.obj" then MpObj.handle toks impl
     else if t == "mp.scope" || t == "mp.tuple" || t == "mp.keyeq" then Scope.handle toks impl
     else if t.startsWith "mp." then MsgPack.handle toks impl
     else if t.startsWith "num." then Num.handle toks impl
